@@ -12,17 +12,17 @@ FILES = ec.FILES
 FUNCTIONS = ec.FUNCTIONS
 ASSUMPTIONS = ec.ASSUMPTIONS
 TIERS = {
-    "quick": [{"R": 3, "C": 2, "entry": "callback"}, {"R": 2, "C": 3, "entry": "at_time"}],
-    "thorough": [{"R": 4, "C": 2, "entry": "callback"}, {"R": 3, "C": 4, "entry": "callback"}, {"R": 3, "C": 3, "entry": "at_time"}],
+    "quick": [{"R": 2, "C": 2, "entry": "callback"}, {"R": 3, "C": 2, "entry": "callback", "extras": False}, {"R": 2, "C": 2, "entry": "at_time"}],
+    "thorough": [{"R": 3, "C": 2, "entry": "callback"}, {"R": 3, "C": 3, "entry": "callback", "extras": False}, {"R": 2, "C": 3, "entry": "at_time"}],
 }
 BOUNDS_NOTE = ("bounds: R rules, max_cycles <= C (see runs[].bounds); one execute per fresh engine; focus histories beyond one "
                "set_agenda_focus, ActivateAgendaGroup actions, workflow scheduling and repeated execute calls are outside the claim")
 
 
-def run(R, C, entry, witness=False):
+def run(R, C, entry, extras=True, witness=False):
     h = Harness(FILES, cap=max(R, 4) + 2, loop_bound=max(C, R) + 2, rec_bound=4)
     ip = h.ip
-    d = ec.build(h, R, C, entry)
+    d = ec.build(h, R, C, entry, extras)
     out = d["out"]
     h.tag = "result"
     h.require(ip.tag_eq(out, 0), "C02: execute returned an error")
@@ -53,7 +53,7 @@ def run(R, C, entry, witness=False):
     if witness:
         h.require(False, "C02 witness")
     r = h.decide()
-    r["bounds"] = {"rules": R, "max_cycles_up_to": C, "entry": entry}
+    r["bounds"] = {"rules": R, "max_cycles_up_to": C, "entry": entry, "activation_actions_and_removed_rule": extras}
     r["harness"] = h
     r["R"], r["entry"] = R, entry
     return r
